@@ -396,6 +396,21 @@ impl Check for C04 {
                 } else {
                     ("enum".to_string(), 0)
                 };
+                // login: a third of the sites go through the protocol-parameterised readers. The typed helper must report
+                // any opcode other than its own; the opcode-enum reader dispatches on the version 8 enum, so it is only
+                // asked about opcodes that version 8 does not define either
+                let entry = if login.is_some() && cf.chance(1, 3) {
+                    let v8_defined = self.opsets.iter().find(|(l, _, d, _)| *l == Some(8) && d == dir).map(|x| x.3.contains(&op)).unwrap_or(true);
+                    if let Some(n) = entry.strip_prefix("expect:") {
+                        format!("expect-protocol:{}", n)
+                    } else if entry == "enum" && !v8_defined {
+                        "enum-protocol".to_string()
+                    } else {
+                        entry
+                    }
+                } else {
+                    entry
+                };
                 let mut stream = stream;
                 let mut op_final = op;
                 if entry.starts_with("expect:") && login.is_none() && *dir == Dir::Client && cf.chance(1, 2) {
